@@ -20,7 +20,9 @@ class NativeCheck:
         "C19": dict(mod="checks.hybrid_native", fn="run_c19", vc="types_vc", level="other",
                     text="C19: Struct._to_json under contract (classes of <= 3 fields, abstract field types): a dict with exactly the field names in declaration "
                          "order, each value read through the field's type at its documented address; with the writer contract for dict values (C01/C05 groups) the "
-                         "struct constructor applied to it reproduces every field.  Array._to_json (generator iteration) and HybridClass.to_dict/from_dict "
+                         "struct constructor applied to it reproduces every field.  Array._to_json on one-dimensional reference-free arrays (sequence protocol "
+                         "cut at an invariant): one entry per item in index order, entry j read through the item type at the documented address of item j.  "
+                         "HybridClass.to_dict/from_dict "
                          "(descriptors, computed attribute names) are outside the subset: from_dict(to_dict(h)) == h with default elision and T(x._to_json()) == x "
                          "for reference-free structs and 1-d arrays are decided by the bounded part."),
         "C20": dict(mod="checks.pickle_native", fn="run", vc="types_vc", level="other",
